@@ -8,7 +8,7 @@ set -u
 export GOFLAGS=-mod=mod GOPROXY=off GOSUMDB=off GOTOOLCHAIN=local
 SEED=$1
 OUT=$2
-BASE=8ef576c
+BASE=${SEED_BASE:-8ef576c}
 WT=$(mktemp -d /tmp/confirm.XXXXXX)
 rmdir "$WT"
 git -C /repo worktree add --detach "$WT" $BASE >/dev/null 2>&1 || { echo "{\"error\":\"worktree\"}" > "$OUT"; exit 1; }
